@@ -163,6 +163,30 @@ def canon(name, r):
     return r
 
 
+def mask_times(name, args, r):
+    """clock-dependent fields of consumer-group replies: the idle time of XPENDING's extended form and of XINFO CONSUMERS"""
+    if name == "XPENDING" and len(args) > 3 and r[0] == "a":
+        return ("a", [("a", x[1][:2] + [("i", 0)] + x[1][3:]) if x[0] == "a" and len(x[1]) == 4 and x[1][2][0] == "i" else x for x in r[1]])
+    if name == "XINFO" and r[0] == "a":
+        def m(x):
+            if x[0] != "a":
+                return x
+            ys = [m(y) for y in x[1]]
+            for i in range(len(ys) - 1):
+                if ys[i] in (("b", b"idle"), ("b", b"inactive")) and ys[i + 1][0] == "i":
+                    ys[i + 1] = ("i", 0)
+            return ("a", ys)
+        return m(r)
+    return r
+
+
+def canon_name(name, args):
+    """HSCAN ... NOVALUES lists fields only: compare it like a set scan"""
+    if name == "HSCAN" and any(a.upper() == b"NOVALUES" for a in args[3:]):
+        return "SSCAN"
+    return name
+
+
 def lossy(b):
     return b.decode("utf-8", "replace").encode("utf-8")
 
@@ -248,6 +272,17 @@ def parity_cause(name, args, ra, rb, db, dump_equal, variant):
         return "db0-commands"
     if name in ("ZPOPMIN", "ZPOPMAX") and ra == ("na",) and not eb:
         return "zpop-missing"
+    # the executor parses these commands and re-assembles a frame for the shared handler: arguments its parser does not keep are lost
+    if name == "XREADGROUP" and b"STREAMS" in a and len(a) - a.index(b"STREAMS") - 1 >= 4 and not ea:
+        return "rebuild-lossy"          # two or more streams: re-assembled as `key id key id`
+    if name == "XREADGROUP" and b"NOACK" in a and not ea:
+        return "rebuild-lossy"
+    if name == "XCLAIM" and any(x in (b"JUSTID", b"FORCE", b"IDLE", b"TIME", b"RETRYCOUNT", b"LASTID") for x in a[5:]):
+        return "rebuild-lossy"
+    if name == "XPENDING" and len(args) == 7 and not ea:
+        return "rebuild-lossy"          # the consumer filter
+    if name == "HSCAN" and b"NOVALUES" in a[2:] and not ea:
+        return "rebuild-lossy"
     return None
 
 
@@ -354,15 +389,259 @@ def makes_expired_key(name, args):
     return False
 
 
+# ---- syntax forms: every command with a multi-key / variadic / option-bearing syntax, in forms with 1, 2 and 3 keys
+#      (repeats, missing keys, wrong types) and with each option; the tag names the form (counted into the evidence)
+FORMS_SETUP = [[b"XADD", b"s1", b"1-1", b"a", b"1"], [b"XADD", b"s1", b"2-1", b"a", b"2"], [b"XADD", b"s2", b"1-5", b"b", b"1"],
+               [b"XADD", b"s2", b"3-1", b"b", b"2"], [b"XGROUP", b"CREATE", b"s1", b"g", b"0"], [b"XGROUP", b"CREATE", b"s2", b"g", b"0"],
+               [b"SADD", b"sa", b"a", b"b"], [b"SADD", b"sb", b"b", b"c"], [b"HSET", b"hh", b"f1", b"1", b"f2", b"2", b"f3", b"3"],
+               [b"RPUSH", b"ll", b"x", b"y"], [b"SET", b"ka", b"1"], [b"SET", b"kb", b"2"]]
+F_SKEYS = [b"s1", b"s2", b"s1", b"s2", b"x", b"miss", b"k1"]
+F_SIDS = [b"0", b"0-0", b"1-1", b"2-1", b"$", b"9-9", b"abc", b"1"]
+F_GIDS = [b">", b">", b">", b"0", b"1-1", b"abc"]
+F_NEWIDS = [b"5-0", b"6-1", b"7-0", b"2-1", b"0-0", b"4"]
+F_SETKEYS = [b"sa", b"sb", b"sa", b"sb", b"s", b"miss", b"k1"]
+F_STRKEYS = [b"ka", b"kb", b"k1", b"ka", b"miss", b"ll", b"hh"]
+F_FIELDS = [b"f1", b"f2", b"f3", b"nope", b"f1", b""]
+F_PATTERNS = [b"*", b"k*", b"f*", b"?a", b"[ab]*", b"s?", b"nomatch*", b"*1"]
+F_SCORES = [b"0", b"1", b"2", b"3", b"(1", b"(2", b"(3", b"-inf", b"+inf", b"inf", b"2.5"]
+
+
+def fcmd(r):
+    """(args, form tag)"""
+    def n123():
+        return r.choice([1, 2, 2, 2, 3, 3])
+
+    def cnt():
+        return str(r.choice([0, 1, 1, 2, 5, -1, 100])).encode()
+    fam = r.choice(["XREAD", "XREAD", "XREADGROUP", "XREADGROUP", "XADD", "XRANGE", "XDEL", "XACK", "XPENDING", "XCLAIM", "XGROUP", "XINFO", "XTRIM",
+                    "ZADD", "ZRANGE", "ZBYSCORE", "ZBYSCORE", "ZREM", "SETALG", "SETALG", "SADD", "MSET", "MGET", "DELEX", "SETOPT", "HMGET", "HSET",
+                    "HDEL", "PUSH", "POPN", "SCAN", "SCAN", "KSCAN", "KSCAN"])
+    if fam in ("XREAD", "XREADGROUP"):
+        n = n123()
+        keys = [r.choice(F_SKEYS) for _ in range(n)]
+        ids = [r.choice(F_SIDS if fam == "XREAD" else F_GIDS) for _ in range(n)]
+        tag = "%s.%dkeys" % (fam, n)
+        a = [fam.encode()] + ([b"GROUP", r.choice([b"g", b"g", b"g", b"nogroup"]), r.choice([b"c1", b"c2"])] if fam == "XREADGROUP" else [])
+        if r.chance(1, 2):
+            a += [r.choice([b"COUNT", b"count"]), cnt()]
+            tag += ".count"
+        if fam == "XREADGROUP" and r.chance(1, 5):
+            a += [b"NOACK"]
+            tag += ".noack"
+        if r.chance(1, 12):
+            ids = ids[:-1] if r.chance(1, 2) else ids + [b"0"]
+            tag += ".unbalanced"
+        return a + [b"STREAMS"] + keys + ids, tag
+    if fam == "XADD":
+        k = r.choice([b"s1", b"s2", b"snew", b"k1"])
+        np_ = r.choice([1, 2, 3])
+        tag = "XADD.%dpairs" % np_
+        a = [b"XADD", k]
+        if r.chance(1, 3):
+            a += [b"MAXLEN"] + ([b"~"] if r.chance(1, 4) else []) + [r.choice([b"0", b"1", b"2", b"100"])]
+            tag += ".maxlen"
+        a += [r.choice(F_NEWIDS)]
+        for i in range(np_):
+            a += [b"f%d" % i, r.choice([b"v", b"", b"1"])]
+        if r.chance(1, 10):
+            a += [b"odd"]
+            tag += ".oddfields"
+        return a, tag
+    if fam == "XRANGE":
+        nm = r.choice([b"XRANGE", b"XREVRANGE"])
+        a = [nm, r.choice(F_SKEYS), r.choice([b"-", b"+", b"1-1", b"2-1", b"0", b"(1-1", b"9"]), r.choice([b"+", b"-", b"2-1", b"1-5", b"(3-1", b"1"])]
+        tag = nm.decode()
+        if r.chance(1, 2):
+            a += [b"COUNT", cnt()]
+            tag += ".count"
+        return a, tag
+    if fam == "XDEL":
+        n = n123()
+        return [b"XDEL", r.choice(F_SKEYS)] + [r.choice([b"1-1", b"2-1", b"1-5", b"3-1", b"9-9", b"abc"]) for _ in range(n)], "XDEL.%dids" % n
+    if fam == "XACK":
+        n = n123()
+        return [b"XACK", r.choice(F_SKEYS), r.choice([b"g", b"g", b"nogroup"])] + [r.choice([b"1-1", b"2-1", b"1-5", b"3-1", b"9-9", b"abc"]) for _ in range(n)], "XACK.%dids" % n
+    if fam == "XPENDING":
+        k, gname = r.choice(F_SKEYS), r.choice([b"g", b"g", b"g", b"nogroup"])
+        f = r.below(4)
+        if f == 0:
+            return [b"XPENDING", k, gname], "XPENDING.summary"
+        rng = [r.choice([b"-", b"1-1", b"2-0", b"9-9"]), r.choice([b"+", b"2-1", b"1-0"]), cnt()]
+        if f in (1, 2):
+            return [b"XPENDING", k, gname] + rng, "XPENDING.range"
+        return [b"XPENDING", k, gname] + rng + [r.choice([b"c1", b"c2", b"nobody"])], "XPENDING.range.consumer"
+    if fam == "XCLAIM":
+        n = r.choice([1, 2, 2])
+        a = [b"XCLAIM", r.choice(F_SKEYS), r.choice([b"g", b"g", b"nogroup"]), r.choice([b"c1", b"c2", b"c3"]), r.choice([b"0", b"0", b"3600000", b"abc"])]
+        a += [r.choice([b"1-1", b"2-1", b"1-5", b"3-1", b"9-9"]) for _ in range(n)]
+        tag = "XCLAIM.%dids" % n
+        if r.chance(1, 2):
+            o = r.choice([[b"JUSTID"], [b"FORCE"], [b"IDLE", b"0"], [b"RETRYCOUNT", b"5"], [b"FORCE", b"JUSTID"]])
+            a += o
+            tag += "." + b"+".join(x for x in o if not x.isdigit()).decode().lower()
+        return a, tag
+    if fam == "XGROUP":
+        k = r.choice([b"s1", b"s2", b"miss", b"k1"])
+        sub = r.choice(["CREATE", "CREATE", "DESTROY", "SETID", "DELCONSUMER", "CREATECONSUMER"])
+        gname = r.choice([b"g", b"g2"])
+        if sub == "CREATE":
+            a = [b"XGROUP", b"CREATE", k, gname, r.choice([b"$", b"0", b"1-1", b"abc"])]
+            if r.chance(1, 3):
+                return a + [b"MKSTREAM"], "XGROUP.create.mkstream"
+            return a, "XGROUP.create"
+        if sub == "DESTROY":
+            return [b"XGROUP", b"DESTROY", k, gname], "XGROUP.destroy"
+        if sub == "SETID":
+            return [b"XGROUP", b"SETID", k, gname, r.choice([b"$", b"0", b"1-1"])], "XGROUP.setid"
+        return [b"XGROUP", sub.encode(), k, gname, r.choice([b"c1", b"c2"])], "XGROUP." + sub.lower()
+    if fam == "XINFO":
+        sub = r.choice([b"STREAM", b"GROUPS", b"CONSUMERS"])
+        return [b"XINFO", sub, r.choice(F_SKEYS)] + ([r.choice([b"g", b"nogroup"])] if sub == b"CONSUMERS" else []), "XINFO." + sub.decode().lower()
+    if fam == "XTRIM":
+        o = r.choice([[b"MAXLEN", b"1"], [b"MAXLEN", b"0"], [b"MAXLEN", b"~", b"1"], [b"MAXLEN", b"=", b"1"], [b"MINID", b"2-0"], [b"MAXLEN", b"-1"]])
+        return [b"XTRIM", r.choice(F_SKEYS)] + o, "XTRIM." + b"".join(x for x in o if not x.lstrip(b"-").isdigit() and b"-" not in x[1:]).decode().lower()
+    if fam == "ZADD":
+        n = n123()
+        a = [b"ZADD", r.choice([b"z", b"z", b"znew", b"k1"])]
+        tag = "ZADD.%dpairs" % n
+        if r.chance(1, 3):
+            o = r.choice([b"NX", b"XX", b"CH", b"INCR", b"GT", b"LT"])
+            a.append(o)
+            tag += "." + o.decode().lower()
+        ms = [b"a", b"b", b"c", b"d"]
+        for i in range(n):
+            a += [r.choice([b"1", b"2.5", b"-3", b"1e2", b"inf", b"nope"]) if r.chance(1, 8) else r.choice([b"1", b"2", b"5", b"7.5"]), r.choice(ms)]
+        return a, tag
+    if fam == "ZRANGE":
+        nm = r.choice([b"ZRANGE", b"ZREVRANGE"])
+        a = [nm, r.choice([b"z", b"z", b"miss", b"k1"]), str(r.choice(SMALL)).encode(), str(r.choice(SMALL)).encode()]
+        tag = nm.decode()
+        if r.chance(1, 2):
+            a.append(r.choice([b"WITHSCORES", b"withscores"]))
+            tag += ".withscores"
+        if nm == b"ZRANGE" and r.chance(1, 5):
+            a.append(r.choice([b"REV", b"BYSCORE", b"LIMIT"]))
+            tag += ".option"
+        return a, tag
+    if fam == "ZBYSCORE":
+        nm = r.choice([b"ZRANGEBYSCORE", b"ZREVRANGEBYSCORE", b"ZCOUNT", b"ZREMRANGEBYSCORE"])
+        lo, hi = r.choice(F_SCORES), r.choice(F_SCORES)
+        a = [nm, r.choice([b"z", b"z", b"miss", b"k1"]), lo, hi]
+        tag = nm.decode() + (".exclusive" if b"(" in lo + hi else "") + (".inf" if b"inf" in lo + hi else "")
+        if nm in (b"ZRANGEBYSCORE", b"ZREVRANGEBYSCORE"):
+            if r.chance(1, 3):
+                a.append(b"WITHSCORES")
+                tag += ".withscores"
+            if r.chance(1, 3):
+                a += [b"LIMIT", str(r.choice([0, 1, -1])).encode(), str(r.choice([0, 1, 2, -1])).encode()]
+                tag += ".limit"
+        return a, tag
+    if fam == "ZREM":
+        n = n123()
+        return [b"ZREM", r.choice([b"z", b"miss", b"k1"])] + [r.choice([b"a", b"b", b"c", b"nope"]) for _ in range(n)], "ZREM.%dmembers" % n
+    if fam == "SETALG":
+        nm = r.choice([b"SUNION", b"SINTER", b"SDIFF"])
+        n = n123()
+        keys = [r.choice(F_SETKEYS) for _ in range(n)]
+        tag = "%s.%dkeys" % (nm.decode(), n) + (".missing" if b"miss" in keys else "") + (".wrongtype" if b"k1" in keys else "") + \
+            (".repeat" if len(set(keys)) < n else "")
+        return [nm] + keys, tag
+    if fam == "SADD":
+        nm = r.choice([b"SADD", b"SREM"])
+        n = r.choice([1, 2, 3, 4])
+        return [nm, r.choice([b"sa", b"sb", b"snew", b"k1"])] + [r.choice([b"a", b"b", b"c", b"d", b"a"]) for _ in range(n)], "%s.%dmembers" % (nm.decode(), n)
+    if fam == "MSET":
+        n = n123()
+        a = [b"MSET"]
+        keys = []
+        for _ in range(n):
+            k = r.choice([b"ka", b"kb", b"kc", b"ka", b"ll"])
+            keys.append(k)
+            a += [k, r.choice([b"1", b"2", b""])]
+        if r.chance(1, 10):
+            return a + [b"odd"], "MSET.oddargs"
+        return a, "MSET.%dpairs" % n + (".repeat" if len(set(keys)) < n else "")
+    if fam == "MGET":
+        n = r.choice([1, 2, 3, 4])
+        keys = [r.choice(F_STRKEYS) for _ in range(n)]
+        return [b"MGET"] + keys, "MGET.%dkeys" % n + (".missing" if b"miss" in keys else "") + (".wrongtype" if b"ll" in keys or b"hh" in keys else "") + \
+            (".repeat" if len(set(keys)) < n else "")
+    if fam == "DELEX":
+        nm = r.choice([b"DEL", b"EXISTS"])
+        n = r.choice([1, 2, 3, 4])
+        keys = [r.choice(F_STRKEYS) for _ in range(n)]
+        return [nm] + keys, "%s.%dkeys" % (nm.decode(), n) + (".repeat" if len(set(keys)) < n else "")
+    if fam == "SETOPT":
+        o = r.choice([[b"NX"], [b"XX"], [b"EX", b"1000"], [b"PX", b"1000000"], [b"NX", b"EX", b"1000"], [b"XX", b"PX", b"1000000"], [b"EX", b"1000", b"NX"],
+                      [b"px", b"1000000", b"xx"], [b"NX", b"XX"], [b"EX"], [b"EX", b"1000", b"EX", b"1000"], [b"GET"], [b"KEEPTTL"], [b"EXAT", b"99999999999"]])
+        return [b"SET", r.choice([b"ka", b"knew", b"ll"]), b"v"] + o, "SET." + b"+".join(x.upper() for x in o if not x.isdigit()).decode().lower()
+    if fam == "HMGET":
+        n = r.choice([1, 2, 3, 4])
+        fs = [r.choice(F_FIELDS) for _ in range(n)]
+        mid = n >= 3 and any(f in (b"nope", b"") for f in fs[1:-1])
+        return [b"HMGET", r.choice([b"hh", b"hh", b"hh", b"miss", b"k1"])] + fs, "HMGET.%dfields" % n + (".missing-in-middle" if mid else "")
+    if fam == "HSET":
+        nm = r.choice([b"HSET", b"HMSET"])
+        n = n123()
+        a = [nm, r.choice([b"hh", b"hnew", b"k1"])]
+        fs = []
+        for _ in range(n):
+            f = r.choice([b"f1", b"f2", b"g1", b"g1"])
+            fs.append(f)
+            a += [f, r.choice([b"1", b"x", b""])]
+        return a, "%s.%dpairs" % (nm.decode(), n) + (".repeat" if len(set(fs)) < n else "")
+    if fam == "HDEL":
+        n = n123()
+        return [b"HDEL", r.choice([b"hh", b"miss", b"k1"])] + [r.choice(F_FIELDS) for _ in range(n)], "HDEL.%dfields" % n
+    if fam == "PUSH":
+        nm = r.choice([b"LPUSH", b"RPUSH"])
+        n = r.choice([1, 2, 3, 4])
+        return [nm, r.choice([b"ll", b"lnew", b"k1"])] + [r.choice([b"a", b"b", b"", b"a"]) for _ in range(n)], "%s.%delems" % (nm.decode(), n)
+    if fam == "POPN":
+        nm = r.choice([b"LPOP", b"RPOP"])
+        return [nm, r.choice([b"ll", b"miss", b"k1"]), r.choice([b"1", b"2", b"0"])], nm.decode() + ".count"
+    if fam == "SCAN":
+        a = [b"SCAN", r.choice([b"0", b"0", b"0", b"2", b"abc"])]
+        tag = "SCAN"
+        if r.chance(1, 2):
+            a += [r.choice([b"MATCH", b"match"]), r.choice(F_PATTERNS)]
+            tag += ".match"
+        if r.chance(1, 2):
+            a += [b"COUNT", r.choice([b"1", b"3", b"100", b"0", b"abc"])]
+            tag += ".count"
+        if r.chance(1, 5):
+            a += [b"TYPE", r.choice([b"string", b"zset", b"stream", b"nonsense"])]
+            tag += ".type"
+        return a, tag
+    nm = r.choice([b"HSCAN", b"SSCAN", b"ZSCAN"])
+    key = {b"HSCAN": b"hh", b"SSCAN": b"sa", b"ZSCAN": b"z"}[nm] if r.chance(4, 5) else r.choice([b"miss", b"k1"])
+    a = [nm, key, r.choice([b"0", b"0", b"0", b"1", b"abc"])]
+    tag = nm.decode()
+    if r.chance(1, 2):
+        a += [b"MATCH", r.choice(F_PATTERNS)]
+        tag += ".match"
+    if r.chance(1, 2):
+        a += [b"COUNT", r.choice([b"1", b"2", b"100", b"0"])]
+        tag += ".count"
+    if nm == b"HSCAN" and r.chance(1, 4):
+        a += [b"NOVALUES"]
+        tag += ".novalues"
+    return a, tag
+
+
 def gen_command(r, g):
     """one command of the data-type catalogue (never one of NEVER); returns (args, shape tag)"""
     while True:
-        if r.chance(3, 5):
+        k = r.below(20)
+        if k < 8:
             args = g.command()
             shape = g.last_shape
-        else:
+        elif k < 13:
             args = zcmd(r)
             shape = "z"
+        else:
+            args, shape = fcmd(r)
+            shape = "form." + shape
         name = args[0].decode("latin-1").upper()
         if name in NEVER:
             continue
@@ -473,6 +752,13 @@ def dump(c):
             v = "zset " + ("|".join(hx(fl[i][1]) + "=" + hx(fl[i + 1][1]) for i in range(0, len(fl), 2)) if fl else ".")
         elif t == "stream":
             v = "stream " + show(c.cmd("XRANGE", k, "-", "+"))
+            gs = c.cmd("XINFO", "GROUPS", k)
+            if gs[0] == "a" and gs[1]:
+                # consumer groups: cursor, counts and the pending entries (id, owner, delivery count; idle time masked)
+                v += " groups " + show(norm(gs))
+                for gr in gs[1]:
+                    if gr[0] == "a" and len(gr[1]) >= 2 and gr[1][1][0] == "b":
+                        v += " pel[%s] " % hx(gr[1][1][1]) + show(norm(mask_times("XPENDING", [b"", b"", b"", b"-"], c.cmd("XPENDING", k, gr[1][1][1], "-", "+", "1000"))))
         else:
             v = "type-" + t
         ttl = c.cmd("PTTL", k)
@@ -487,6 +773,7 @@ class Checker:
         self.rep, self.tier = rep, tier
         self.findings = {f["match"]: f for f in findings}
         self.known = {}              # finding id -> finding (confirmed on this run)
+        self.forms = {}              # syntax form -> number of twin cases
         self.oracle_fail = []        # details of oracle failures outside known findings
         self.disagree = []           # model disagreements
         self.samples = {}
@@ -544,8 +831,17 @@ class Checker:
             self.fail("twin", "the server %s on a script" % ("closed the connection" if rb[2] else "died"), det)
             return True
         rep.evaluations += 1
+        if shape.startswith("form."):
+            rep.count(shape)
+            self.forms[shape[5:]] = self.forms.get(shape[5:], 0) + 1
+        ra = mask_times(name, args, ra)
+        if variant in ("raw", "praw"):
+            rb = mask_times(name, args, rb)
+        elif variant == "wrap" and rb[0] == "a" and len(rb[1]) == 1:
+            rb = ("a", [mask_times(name, args, rb[1][0])])
         code, spec, tags = self.conv(variant, ra)
-        cb, ccode, cspec = canon(name, rb), canon(name, code), canon(name, spec)
+        cn = canon_name(name, args)
+        cb, ccode, cspec = canon(cn, rb), canon(cn, code), canon(cn, spec)
         if FAULT == "reply" and name == "LLEN" and rb[0] == "i":
             cb = ("i", rb[1] + 1)
         if name in WINDOW and variant in ("raw", "praw", "wrap"):
@@ -907,6 +1203,65 @@ CORPUS = [
 ]
 
 
+G1 = [[b"XREADGROUP", b"GROUP", b"g", b"c1", b"STREAMS", b"s1", b">"]]       # delivers s1's two entries to c1
+FORM_CORPUS = [
+    # (extra set-up after FORMS_SETUP, command, form tag): the multi-key / option forms, one deterministic case each
+    ([], [b"XREAD", b"STREAMS", b"s1", b"s2", b"1-1", b"0"], "XREAD.2keys"),
+    ([], [b"XREAD", b"COUNT", b"1", b"STREAMS", b"s1", b"s2", b"0", b"0"], "XREAD.2keys.count"),
+    ([], [b"XREAD", b"STREAMS", b"s1", b"s2", b"x", b"0", b"1-5", b"0"], "XREAD.3keys"),
+    ([], [b"XREAD", b"COUNT", b"2", b"STREAMS", b"s2", b"miss", b"s1", b"0", b"0", b"$"], "XREAD.3keys.count"),
+    ([], [b"XREAD", b"STREAMS", b"s1", b"s2", b"0"], "XREAD.2keys.unbalanced"),
+    ([], [b"XREADGROUP", b"GROUP", b"g", b"c1", b"STREAMS", b"s1", b">"], "XREADGROUP.1keys"),
+    ([], [b"XREADGROUP", b"GROUP", b"g", b"c1", b"STREAMS", b"s1", b"s2", b">", b">"], "XREADGROUP.2keys"),
+    ([], [b"XREADGROUP", b"GROUP", b"g", b"c1", b"COUNT", b"1", b"STREAMS", b"s1", b"s2", b">", b">"], "XREADGROUP.2keys.count"),
+    (G1, [b"XREADGROUP", b"GROUP", b"g", b"c1", b"STREAMS", b"s1", b"s2", b"0", b">"], "XREADGROUP.2keys"),
+    ([], [b"XREADGROUP", b"GROUP", b"g", b"c1", b"COUNT", b"1", b"NOACK", b"STREAMS", b"s1", b">"], "XREADGROUP.1keys.count.noack"),
+    ([], [b"XADD", b"s1", b"5-0", b"f", b"v", b"g", b"w", b"h", b""], "XADD.3pairs"),
+    ([], [b"XADD", b"s1", b"MAXLEN", b"1", b"5-0", b"f", b"v"], "XADD.1pairs.maxlen"),
+    ([], [b"XRANGE", b"s1", b"-", b"+", b"COUNT", b"1"], "XRANGE.count"),
+    ([], [b"XREVRANGE", b"s2", b"+", b"-", b"COUNT", b"1"], "XREVRANGE.count"),
+    ([], [b"XDEL", b"s1", b"1-1", b"2-1", b"9-9"], "XDEL.3ids"),
+    (G1, [b"XACK", b"s1", b"g", b"1-1", b"2-1", b"9-9"], "XACK.3ids"),
+    (G1, [b"XPENDING", b"s1", b"g"], "XPENDING.summary"),
+    (G1, [b"XPENDING", b"s1", b"g", b"-", b"+", b"10"], "XPENDING.range"),
+    (G1, [b"XPENDING", b"s1", b"g", b"-", b"+", b"10", b"c2"], "XPENDING.range.consumer"),
+    (G1, [b"XCLAIM", b"s1", b"g", b"c2", b"0", b"1-1", b"2-1"], "XCLAIM.2ids"),
+    (G1, [b"XCLAIM", b"s1", b"g", b"c2", b"0", b"1-1", b"JUSTID"], "XCLAIM.1ids.justid"),
+    ([], [b"XCLAIM", b"s1", b"g", b"c2", b"0", b"1-1", b"FORCE"], "XCLAIM.1ids.force"),
+    ([], [b"XGROUP", b"CREATE", b"snew", b"g2", b"$", b"MKSTREAM"], "XGROUP.create.mkstream"),
+    ([], [b"XGROUP", b"SETID", b"s1", b"g", b"1-1"], "XGROUP.setid"),
+    (G1, [b"XINFO", b"CONSUMERS", b"s1", b"g"], "XINFO.consumers"),
+    ([], [b"ZADD", b"z", b"5", b"a", b"6", b"d", b"7", b"e"], "ZADD.3pairs"),
+    ([], [b"ZRANGE", b"z", b"0", b"-1", b"WITHSCORES"], "ZRANGE.withscores"),
+    ([], [b"ZREVRANGE", b"z", b"0", b"1", b"WITHSCORES"], "ZREVRANGE.withscores"),
+    ([], [b"ZRANGEBYSCORE", b"z", b"(1", b"+inf", b"WITHSCORES"], "ZRANGEBYSCORE.exclusive.inf.withscores"),
+    ([], [b"ZRANGEBYSCORE", b"z", b"-inf", b"3", b"LIMIT", b"1", b"1"], "ZRANGEBYSCORE.inf.limit"),
+    ([], [b"ZCOUNT", b"z", b"(2", b"(3"], "ZCOUNT.exclusive"),
+    ([], [b"SUNION", b"sa", b"sb", b"miss"], "SUNION.3keys.missing"),
+    ([], [b"SINTER", b"sa", b"sb"], "SINTER.2keys"),
+    ([], [b"SINTER", b"sa", b"sb", b"k1"], "SINTER.3keys.wrongtype"),
+    ([], [b"SDIFF", b"sa", b"miss", b"sb"], "SDIFF.3keys.missing"),
+    ([], [b"SDIFF", b"sa", b"sa"], "SDIFF.2keys.repeat"),
+    ([], [b"MSET", b"ka", b"1", b"ka", b"2", b"kc", b"3"], "MSET.3pairs.repeat"),
+    ([], [b"MGET", b"ka", b"ka", b"kb"], "MGET.3keys.repeat"),
+    ([], [b"DEL", b"ka", b"ka", b"miss", b"kb"], "DEL.4keys.repeat"),
+    ([], [b"EXISTS", b"ka", b"ka", b"miss", b"kb"], "EXISTS.4keys.repeat"),
+    ([], [b"HMGET", b"hh", b"f1", b"nope", b"f3"], "HMGET.3fields.missing-in-middle"),
+    ([], [b"HSET", b"hh", b"g1", b"1", b"g1", b"2", b"f1", b"9"], "HSET.3pairs.repeat"),
+    ([], [b"HDEL", b"hh", b"f1", b"nope", b"f3"], "HDEL.3fields"),
+    ([], [b"LPUSH", b"ll", b"a", b"b", b"c"], "LPUSH.3elems"),
+    ([], [b"RPUSH", b"lnew", b"a", b"b", b"c", b"a"], "RPUSH.4elems"),
+    ([], [b"SET", b"ka", b"v", b"XX", b"PX", b"1000000"], "SET.xx+px"),
+    ([], [b"SET", b"ka", b"v", b"NX", b"EX", b"1000"], "SET.nx+ex"),
+    ([], [b"SCAN", b"0", b"MATCH", b"k*", b"COUNT", b"100"], "SCAN.match.count"),
+    ([], [b"SCAN", b"0", b"COUNT", b"3"], "SCAN.count"),
+    ([], [b"HSCAN", b"hh", b"0", b"MATCH", b"f*", b"COUNT", b"10"], "HSCAN.match.count"),
+    ([], [b"HSCAN", b"hh", b"0", b"NOVALUES"], "HSCAN.novalues"),
+    ([], [b"SSCAN", b"sa", b"0", b"MATCH", b"a*", b"COUNT", b"10"], "SSCAN.match.count"),
+    ([], [b"ZSCAN", b"z", b"0", b"MATCH", b"*", b"COUNT", b"2"], "ZSCAN.match.count"),
+]
+
+
 def layer_twin(ck, r, n_hist, per_hist):
     rep = ck.rep
     tw = Twin(ck.drv)
@@ -926,11 +1281,16 @@ def layer_twin(ck, r, n_hist, per_hist):
         for db, setup, cmd, variant in CORPUS:
             tw.fresh(db, setup)
             one(cmd, variant, "corpus")
+        base = [[b"SET", b"k1", b"v"], [b"ZADD", b"z", b"1", b"a", b"2", b"b", b"3", b"c"], [b"XADD", b"x", b"1-1", b"f", b"v"]] + FORMS_SETUP
+        for i, (extra, cmd, tag) in enumerate(FORM_CORPUS):
+            for variant in ("raw", "ptype" if i % 2 else "wrap"):
+                tw.fresh(5 if i % 3 == 2 else 0, base + extra)
+                one(cmd, variant, "form." + tag)
         for h in range(n_hist):
             rr = r.fork("twin%d" % h)
             g = ksgen.Gen(rr, ksgen.STRING_VOCAB + ksgen.COLL_VOCAB)
             db = rr.choice([0, 0, 1, 5, 9, 15])
-            setup = g.setup() + [[b"SET", b"bc", b"abc"], [b"ZADD", b"z", b"2", b"a", b"3", b"b"]]
+            setup = g.setup() + [[b"SET", b"bc", b"abc"], [b"ZADD", b"z", b"2", b"a", b"3", b"b"]] + FORMS_SETUP
             tw.fresh(db, setup)
             for i in range(per_hist):
                 args, shape = gen_command(rr, g)
@@ -1373,6 +1733,8 @@ def verdict(ck, ok, log, errs):
     rep = ck.rep
     for fid, f in sorted(ck.known.items()):
         rep.known(fid, f["what"])
+    rep.extra["syntax_form_distribution"] = dict(sorted(ck.forms.items()))
+    rep.extra["syntax_forms_distinct"] = len(ck.forms)
     rep.extra["model_disagreements"] = len(ck.disagree)
     rep.extra["oracle_failures_outside_known_findings"] = len(ck.oracle_fail)
     rep.extra["known_finding_samples"] = {m: {k: v for k, v in d.items() if k in ("cmd_text", "variant", "db", "direct_reply_A", "script_reply_B", "spec_prescribes", "script", "server_reply")}
